@@ -68,16 +68,76 @@ def _const_rank(e: ast.AST) -> int:
 def _canonicalise(tree: ast.AST) -> None:
     """Normal form for behaviour-preserving spellings, applied to every module before any rule sees it, so that both
     spellings give the rules the same tree (line numbers of moved statements are kept; they are for humans):
+      `if C: ...exit else: REST`   ->  `if C: ...exit` followed by REST   (the branch ends in return/raise/continue/break)
+      `if C: REST else: ...exit`   ->  `if not C: ...exit` followed by REST
       `if not C: A else: B`        ->  `if C: B else: A`   (a real else branch only, never an elif chain)
+      `not not C` as an if/while test -> `C`
+      `not a in b` / `not a is b` / `not a == b` (and the other single comparisons)  ->  the negated operator
       `CONST == x` / `CONST != x`  ->  `x == CONST`        (the more constant operand goes to the right)
+      `x = x + e` / `x = x - e`    ->  `x += e` / `x -= e`  (plain names)
       `t = E; return t`            ->  `return E`          (t stored once, loaded once, in adjacent statements)"""
+    _NEG = {ast.In: ast.NotIn, ast.NotIn: ast.In, ast.Is: ast.IsNot, ast.IsNot: ast.Is, ast.Eq: ast.NotEq, ast.NotEq: ast.Eq,
+            ast.Lt: ast.GtE, ast.GtE: ast.Lt, ast.Gt: ast.LtE, ast.LtE: ast.Gt}
+    _EXIT = (ast.Return, ast.Raise, ast.Continue, ast.Break)
+
+    # 1. flatten `else` next to a branch that always leaves (innermost first, so that chains unfold completely)
+    def _flatten(blk: list, elif_arm: bool = False) -> None:
+        i = 0
+        while i < len(blk):
+            st = blk[i]
+            for fld in ("body", "orelse", "finalbody"):
+                sub = getattr(st, fld, None)
+                if isinstance(sub, list) and sub and isinstance(sub[0], ast.AST):
+                    _flatten(sub, elif_arm=(fld == "orelse" and isinstance(st, ast.If) and len(sub) == 1 and isinstance(sub[0], ast.If)))
+            for h in getattr(st, "handlers", []) or []:
+                _flatten(h.body)
+            if isinstance(st, ast.If) and st.orelse and not (len(st.orelse) == 1 and isinstance(st.orelse[0], ast.If)) and st.body:
+                if isinstance(st.body[-1], _EXIT):
+                    rest, st.orelse = st.orelse, []
+                    blk[i + 1:i + 1] = rest
+                elif isinstance(st.orelse[-1], _EXIT) and not elif_arm:
+                    rest = st.body
+                    st.body, st.orelse = st.orelse, []
+                    st.test = ast.copy_location(ast.UnaryOp(op=ast.Not(), operand=st.test), st.test)
+                    blk[i + 1:i + 1] = rest
+            i += 1
+
     for n in ast.walk(tree):
+        if isinstance(n, (ast.FunctionDef, ast.AsyncFunctionDef, ast.Module)):
+            _flatten(n.body)
+    # 2. swap `if not C: A else: B`; double negation in tests
+    for n in ast.walk(tree):
+        if isinstance(n, (ast.If, ast.While)):
+            while isinstance(n.test, ast.UnaryOp) and isinstance(n.test.op, ast.Not) and isinstance(n.test.operand, ast.UnaryOp) and isinstance(n.test.operand.op, ast.Not):
+                n.test = n.test.operand.operand
         if isinstance(n, ast.If) and n.orelse and not (len(n.orelse) == 1 and isinstance(n.orelse[0], ast.If)) \
                 and isinstance(n.test, ast.UnaryOp) and isinstance(n.test.op, ast.Not):
             n.test = n.test.operand
             n.body, n.orelse = n.orelse, n.body
-        elif isinstance(n, ast.Compare) and len(n.ops) == 1 and isinstance(n.ops[0], (ast.Eq, ast.NotEq)) and _const_rank(n.left) > _const_rank(n.comparators[0]):
+    # 3. negated single comparisons; constant to the right; augmented assignment
+    for par in ast.walk(tree):
+        for fld, val in list(ast.iter_fields(par)):
+            cands = val if isinstance(val, list) else [val]
+            for i, v in enumerate(cands):
+                if isinstance(v, ast.UnaryOp) and isinstance(v.op, ast.Not) and isinstance(v.operand, ast.Compare) and len(v.operand.ops) == 1 and type(v.operand.ops[0]) in _NEG:
+                    c = v.operand
+                    c.ops = [_NEG[type(c.ops[0])]()]
+                    if isinstance(val, list):
+                        val[i] = c
+                    else:
+                        setattr(par, fld, c)
+        for fld in ("body", "orelse", "finalbody"):
+            blk = getattr(par, fld, None)
+            if not isinstance(blk, list):
+                continue
+            for i, st in enumerate(blk):
+                if isinstance(st, ast.Assign) and len(st.targets) == 1 and isinstance(st.targets[0], ast.Name) and isinstance(st.value, ast.BinOp) and isinstance(st.value.op, (ast.Add, ast.Sub)) \
+                        and isinstance(st.value.left, ast.Name) and st.value.left.id == st.targets[0].id:
+                    blk[i] = ast.copy_location(ast.AugAssign(target=st.targets[0], op=st.value.op, value=st.value.right), st)
+    for n in ast.walk(tree):
+        if isinstance(n, ast.Compare) and len(n.ops) == 1 and isinstance(n.ops[0], (ast.Eq, ast.NotEq)) and _const_rank(n.left) > _const_rank(n.comparators[0]):
             n.left, n.comparators = n.comparators[0], [n.left]
+    # 4. single-use temporaries in front of a return
     for fn in [x for x in ast.walk(tree) if isinstance(x, (ast.FunctionDef, ast.AsyncFunctionDef))]:
         stores: Dict[str, int] = {}
         loads: Dict[str, int] = {}
